@@ -177,7 +177,9 @@ char *xvu_strcpy64(char *dst, const char *src)
 #define XVU_C1(k) if ((k) <= n) t.b[k] = src[k]
 #define XVU_C8(k) XVU_C1(k); XVU_C1((k) + 1); XVU_C1((k) + 2); XVU_C1((k) + 3); XVU_C1((k) + 4); XVU_C1((k) + 5); XVU_C1((k) + 6); XVU_C1((k) + 7)
     XVU_C8(0); XVU_C8(8); XVU_C8(16); XVU_C8(24); XVU_C8(32); XVU_C8(40); XVU_C8(48); XVU_C8(56);
+#ifndef XVU_X5
     *(struct xvu_b64 *)dst = t;
+#endif
     return dst;
 }
 /* strncmp(a, "ctl-", 4): exact, unrolled (a is a C string: comparison stops at its NUL) */
@@ -521,7 +523,7 @@ int socket(int domain, int type, int protocol)
  *   send: the byte at the arbitrary offset xv_j is recorded (xv_send_c) for the offsets 0..3 (type, little endian) and
  *         8..XVU_TX_HDR-1 (the 64-byte name field) through TYPED reads of struct ctl_proto_msg; for other xv_j xv_send_c is left
  *         0 and xvu_tx_tracked is false (contracts speak about tracked bytes only).
- *   recv: an arbitrary record of arbitrary length `real`; the WHOLE buffer becomes arbitrary when real > 0 (the kernel stores
+ *   recv: an arbitrary record of arbitrary length `real`; the WHOLE buffer becomes arbitrary, on every path (the kernel stores
  *         min(real, len) bytes and leaves the rest alone: making the rest arbitrary as well is an over-approximation); the
  *         protocol fields of a full-size record are copied to xvu_rx from their constant offsets; xvu_rx.val_mc is the value
  *         byte at offset xv_mc (the offset the memcpy model tracks), a typed read.
@@ -543,9 +545,13 @@ ssize_t send(int fd, const void *buf, size_t len, int flags)
         unsigned t = (unsigned)m->type;
         if (xv_j == 0) c = (uint8_t)(t & 0xff); else if (xv_j == 1) c = (uint8_t)((t >> 8) & 0xff);
         else if (xv_j == 2) c = (uint8_t)((t >> 16) & 0xff); else if (xv_j == 3) c = (uint8_t)((t >> 24) & 0xff);
-#ifndef XVU_X1
-        else if (xv_j >= 8) c = (uint8_t)m->get_attr_req.attr_name[xv_j - 8];
-#endif
+        else if (xv_j >= 8) {
+            /* case split over the 64 CONSTANT indices (a symbolic index into a member of the 38 KB union costs 3 M clauses) */
+            const uint8_t *nm = (const uint8_t *)m->get_attr_req.attr_name; long q = xv_j - 8;
+#define XVU_T1(k) if (q == (k)) c = nm[k]
+#define XVU_T8(k) XVU_T1(k); XVU_T1((k) + 1); XVU_T1((k) + 2); XVU_T1((k) + 3); XVU_T1((k) + 4); XVU_T1((k) + 5); XVU_T1((k) + 6); XVU_T1((k) + 7)
+            XVU_T8(0); XVU_T8(8); XVU_T8(16); XVU_T8(24); XVU_T8(32); XVU_T8(40); XVU_T8(48); XVU_T8(56);
+        }
         xv_send_c = c; xvu_tx_tracked = (xv_j < 4 || xv_j >= 8);     /* bytes 4..7 are padding */
     }
     if (nondet_bool()) {
@@ -571,6 +577,16 @@ ssize_t recv(int fd, void *buf, size_t len, int flags)
     xv_recv_calls++; xv_recv_fd = fd; xv_recv_buf = buf; xv_recv_len = len; xv_recv_flags = flags;
     xv_recv_copied = 0; xv_recv_c = 0;
     xvu_rx.full = 0;
+    /* The buffer becomes arbitrary FIRST, on every path (also when the call fails or delivers nothing: the kernel would leave
+     * it alone then -- more behaviours, not fewer), by ONE typed assignment of an arbitrary struct (every receive buffer of
+     * xcmc.c is a struct ctl_proto_msg).  One unconditional write = one new SSA version of the 38 KB object; a write under
+     * a condition costs a 300 000-bit if-then-else at every join behind it, and havoc_slice re-assembles the struct from
+     * a byte array (2 M variables / 7 M clauses). */
+#ifndef XVU_X4
+    if (len == sizeof(struct ctl_proto_msg)) { struct ctl_proto_msg any; *(struct ctl_proto_msg *)buf = any; }
+    else
+#endif
+    if (len > 0) __CPROVER_havoc_slice(buf, len);
     if (nondet_bool()) {
         xv_errno = xv_any_errno();     /* EAGAIN (receive timeout), ECONNRESET, EINTR, ... */
         xv_recv_errno = xv_errno; xv_recv_ret = -1;
@@ -579,7 +595,6 @@ ssize_t recv(int fd, void *buf, size_t len, int flags)
     size_t real = nondet_size_t();
     __CPROVER_assume(real <= XV_DGRAM_MAX);
     size_t n = real < len ? real : len;
-    if (n > 0) __CPROVER_havoc_slice(buf, len);
     xv_recv_copied = n;
     xv_recv_ret = (xv_fdt.e[fd].seqpacket && (flags & MSG_TRUNC)) ? (long)real : (long)n;
     if (n == sizeof(struct ctl_proto_msg)) {
